@@ -17,6 +17,13 @@ import tempfile
 PROPERTY = 'C14'
 LEVEL = 'exploration'
 DESIGN_REF = 'DESIGN.md §4 C14'
+TECHNIQUE = ('bounded exhaustive enumeration of all (inputs, nodes, cores, trials, job index) configurations, '
+             'each executed on the real run-parallel callback with process creation recorded')
+LEVEL_TEXT = ('Every configuration of a complete box is executed on the real callback for every job index and the '
+              'launched tasks are summed per input. The property is integer arithmetic over a small configuration '
+              'space, so complete enumeration decides it inside the box.')
+LEVEL_NOTE = ('Trusted: the recorder replacing multiprocessing.Process; run_file(n) running exactly n trials '
+              '(C11/C12). Not covered: configurations outside the box.')
 RULE = ('complete box of (n_inputs, nodes, cores, trials) with nodes*cores >= n_inputs and '
         'trials >= max tasks per input; for each, the real run_parallel callback runs for every job '
         'index with multiprocessing.Process/cpu_count recorded; a configuration is non-trivial when '
